@@ -129,12 +129,14 @@ class Impl:
 
             def p_error(p):
                 Impl._last_err_pos = p.lexpos if p is not None else -1
+                Impl._last_err_val = p.value if p is not None else None
                 return orig(p)
             p_error._sqv_wrapped = True
             rules.p_error = p_error
         self.p = self.ns.sp.SqParser(parse_cache=parse_cache)
 
     _last_err_pos = None
+    _last_err_val = None
 
     def classify(self, e):
         """error class of the protocol"""
